@@ -329,7 +329,7 @@ func c20Do(env *interp.ExecEnv, o c20Op) (failed bool, note string) {
 	return
 }
 
-var c20Names = []string{"a", "A", "b", "IFS", "@", "*", "#", "?", "-", "$", "!", "0", "1", "2", "10", "11", "12"}
+var c20Names = []string{"a", "A", "b", "HOME", "IFS", "@", "*", "#", "?", "-", "$", "!", "0", "1", "2", "10", "11", "12"}
 
 func c20Ops() []c20Op {
 	var ops []c20Op
@@ -362,6 +362,15 @@ func c20Ops() []c20Op {
 			ops = append(ops, c20Op{Kind: "expand", Name: "a", Val: op, Inner: inner, Text: "${a" + op + inner + "}"})
 		}
 	}
+	// tilde expansion reads HOME and must not write it
+	for _, t := range []string{"~", "~/a", "a:~", "${HOME=w}"} {
+		o := c20Op{Kind: "expand", Name: "HOME", Val: "", Text: t}
+		if strings.HasPrefix(t, "${") {
+			o.Val = "="
+		}
+		ops = append(ops, o)
+	}
+	ops = append(ops, c20Op{Kind: "set", Name: "HOME", Val: "/h"}, c20Op{Kind: "unset", Name: "HOME"})
 	// an assigning expansion that is not the whole word: text, another expansion or quotes around it
 	for _, t := range []string{"pre-${a:=w}", "$0${a:=w}", "\"dir/${a:=w}\"", "$@${a:=w}", "${a:=w}post", "pre-${a:=w}-${A:=w}"} {
 		ops = append(ops, c20Op{Kind: "expand", Name: "a", Val: ":=", Text: t})
@@ -552,6 +561,34 @@ func c20Run(w *W) {
 	}
 	rec()
 	w.Count("unmerged_alphabet", int64(len(red)))
+	// many variables: n = 1 … 24 distinct names set, observed, every other one unset, observed, one assigned by an
+	// expansion, one by Eval, observed (map growth, enumeration of more than a handful of entries)
+	for n := 1; n <= 24; n++ {
+		if !w.Mine() {
+			continue
+		}
+		var h []c20Op
+		for i := 0; i < n; i++ {
+			h = append(h, c20Op{Kind: "set", Name: fmt.Sprintf("v%d", i), Val: fmt.Sprint(i)})
+		}
+		h = append(h, c20Op{Kind: "observe"})
+		for i := 0; i < n; i += 2 {
+			h = append(h, c20Op{Kind: "unset", Name: fmt.Sprintf("v%d", i)})
+		}
+		h = append(h, c20Op{Kind: "observe"})
+		for i := n - 1; i >= 0; i -= 3 {
+			h = append(h, c20Op{Kind: "set", Name: fmt.Sprintf("v%d", i), Val: "x"})
+		}
+		h = append(h, c20Op{Kind: "expand", Name: "a", Val: ":=", Text: "${a:=w}"}, c20Op{Kind: "eval", Name: "A", Val: "n=1", Text: "A=1"}, c20Op{Kind: "observe"})
+		c := c20Case{in, h}
+		w.Count("transitions", int64(len(h)))
+		w.Count("evaluations", 1)
+		w.Count("many_variable_histories", 1)
+		w.Count("traces_validated_against_impl", 1)
+		if _, _, bad := c20Replay(c, false); bad != "" {
+			w.Violation("", c, bad)
+		}
+	}
 }
 
 func init() {
